@@ -70,10 +70,19 @@ type hostGen struct {
 	bigDims  int // fixed-size (array) dimensions of threshold size in this shape: at most one
 }
 
+// hostInBig counts the threshold-size collections currently being filled:
+// collections generated inside one stay small, so that a value holds
+// hundreds, not tens of thousands, of leaves (one case = seconds).
+var hostInBig int
+
 // hostBigSize: sizes around typical fast-path thresholds
 func hostBigSize(r *rand.Rand) int {
 	base := []int{8, 16, 32, 64, 65, 100, 128, 256}[r.Intn(8)]
-	return base - 1 + r.Intn(3)
+	n := base - 1 + r.Intn(3)
+	if hostInBig > 0 {
+		return 5 + n%4
+	}
+	return n
 }
 
 func (h *hostGen) prim() *hostShape {
@@ -165,6 +174,10 @@ func (h *hostGen) shape(d int) *hostShape {
 			}
 			ev := &ref.V{}
 			var elT *ref.Ty
+			if k > 12 {
+				hostInBig++
+				defer func() { hostInBig-- }()
+			}
 			if k > 4 && r.Intn(2) == 0 {
 				// a large collection of one repeated element, whose untagged
 				// nil-able parts may be nil (uniformly, so the types agree)
@@ -211,6 +224,10 @@ func (h *hostGen) shape(d int) *hostShape {
 			cnt := r.Intn(4)
 			if r.Intn(10) == 0 {
 				cnt = hostBigSize(r) // (distinct keys permitting)
+			}
+			if cnt > 12 {
+				hostInBig++
+				defer func() { hostInBig-- }()
 			}
 			for i := cnt; i > 0; i-- {
 				kv, ke := ks.Gen(r, true)
